@@ -24,6 +24,11 @@ def norm_ip(addr):
     return addr
 
 
+import contextvars as _cv
+
+_NO_HOST = _cv.Context()  # context of events that belong to the network, not to a simulated process
+
+
 class SimSocket:
     """Stands in for socket.socket at the three places the library touches one."""
 
@@ -40,6 +45,7 @@ class SimSocket:
         self.transport = None
         self.closed = False
         self.backlog = []
+        self.rxq = []  # datagrams that have arrived and wait to be read: (data, addr, tx_idx, copy)
         self.on_datagram = None  # for scripted peers: callable(data, addr, sock)
         net.sockets.append(self)
 
@@ -89,9 +95,10 @@ class SimTransport:
         self._protocol.connection_made(self)
         if not self._closing:
             self._receiving = True
+            # what arrived before the transport existed sits in the socket buffer and is read like anything else
             backlog, self._sock.backlog = self._sock.backlog, []
             for data, addr in backlog:
-                self._protocol.datagram_received(data, addr)
+                self._sock.rxq.append((data, addr, -1, 0))
 
     def get_extra_info(self, name, default=None):
         if name == "socket":
@@ -299,43 +306,71 @@ class SimNet:
             addr = (src_ip, src[1], 0, 0)
         else:
             addr = (src_ip, src[1])
-        ctx = rsock.owner.new_context()
-        self.loop.call_at(self.loop.time() + dec["d"] / 1e6, self._deliver, rsock, data, addr, tx.idx, copies,
-                          context=ctx)
+        # the arrival of a datagram at a socket is the network's doing: it happens whatever the receiving process is
+        # up to (an empty context: the timer belongs to no host and is never held back by a stall)
+        self.loop.call_at(self.loop.time() + dec["d"] / 1e6, self._arrive, rsock, data, addr, tx.idx, copies,
+                          context=_NO_HOST.copy())
         if "dup" in dec:
             self.fault_counts["dup"] += 1
-            self.loop.call_at(self.loop.time() + (dec["d"] + dec["dup"]) / 1e6, self._deliver, rsock, data, addr,
-                              tx.idx, 1, context=rsock.owner.new_context())
+            self.loop.call_at(self.loop.time() + (dec["d"] + dec["dup"]) / 1e6, self._arrive, rsock, data, addr,
+                              tx.idx, 1, context=_NO_HOST.copy())
 
-    # --------------------------------------------------------------- deliver
-    def _deliver(self, rsock, data, addr, tx_idx, copies):
+    # --------------------------------------------------------------- arrive / read
+    def _arrive(self, rsock, data, addr, tx_idx, copies, first_copy=0):
+        """The datagram (and its back-to-back link-layer copy) reaches the socket buffer."""
         world = self.world
-        for copy in range(copies):
-            if copy and self.b2b_gap:
-                # the link-layer copy is read from the socket a moment later (still nothing in between)
-                self.loop._now += self.b2b_gap
+        for copy in range(first_copy, copies):
+            if copy and self.b2b_gap and first_copy == 0:
+                # the link-layer copy reaches the socket a moment later
+                self.loop.call_at(self.loop.time() + self.b2b_gap, self._arrive, rsock, data, addr, tx_idx, copies, 1,
+                                  context=_NO_HOST.copy())
+                return
             if rsock.closed or (rsock.transport is not None and not rsock.transport._receiving
                                 and rsock.transport._closing):
                 self.fault_counts["discard_closed"] += 1
                 world.log("rx-discard", tx_idx, rsock.label)
                 return
-            self.deliveries += 1
-            world.log("rx", tx_idx, rsock.label, copy)
-            if self.on_rx is not None:
-                self.on_rx(self.loop.time(), rsock, data, addr, tx_idx, copy)
             if rsock.on_datagram is not None:
-                rsock.on_datagram(data, addr, rsock)
+                # scripted peers have no event loop: they see the datagram as it arrives
+                self.deliveries += 1
+                world.log("rx", tx_idx, rsock.label, copy)
+                if self.on_rx is not None:
+                    self.on_rx(self.loop.time(), rsock, data, addr, tx_idx, copy)
+                ctx = rsock.owner.new_context()
+                ctx.run(rsock.on_datagram, data, addr, rsock)
             elif rsock.transport is None or not rsock.transport._receiving:
                 rsock.backlog.append((data, addr))
             else:
-                try:
-                    rsock.transport._protocol.datagram_received(data, addr)
-                except Exception as exc:  # noqa
-                    # asyncio's datagram transport calls datagram_received from its read callback: an exception goes to
-                    # the loop's exception handler, the transport stays open and the next datagram is read as usual
-                    self.loop.call_exception_handler({
-                        "message": f"Exception in callback {type(rsock.transport._protocol).__name__}.datagram_received()",
-                        "exception": exc, "transport": rsock.transport})
-                finally:
-                    if self.after_rx is not None:
-                        self.after_rx(rsock)
+                rsock.rxq.append((data, addr, tx_idx, copy))
+
+    def readable(self, stalled):
+        """Sockets of running instances with something to read, in descriptor order (what select() reports)."""
+        return [s for s in self.sockets if s.rxq and not s.closed and s.transport is not None
+                and s.transport._receiving and s.owner.name not in stalled]
+
+    def read_one(self, rsock):
+        """asyncio's datagram transport reads ONE datagram per readiness event, i.e. per loop iteration and socket."""
+        world = self.world
+        if not rsock.rxq:
+            return
+        data, addr, tx_idx, copy = rsock.rxq.pop(0)
+        if rsock.closed or rsock.transport is None or not rsock.transport._receiving:
+            self.fault_counts["discard_closed"] += 1
+            world.log("rx-discard", tx_idx, rsock.label)
+            rsock.rxq.clear()
+            return
+        self.deliveries += 1
+        world.log("rx", tx_idx, rsock.label, copy)
+        if self.on_rx is not None:
+            self.on_rx(self.loop.time(), rsock, data, addr, tx_idx, copy)
+        try:
+            rsock.transport._protocol.datagram_received(data, addr)
+        except Exception as exc:  # noqa
+            # asyncio's datagram transport calls datagram_received from its read callback: an exception goes to the
+            # loop's exception handler, the transport stays open and the next datagram is read as usual
+            self.loop.call_exception_handler({
+                "message": f"Exception in callback {type(rsock.transport._protocol).__name__}.datagram_received()",
+                "exception": exc, "transport": rsock.transport})
+        finally:
+            if self.after_rx is not None:
+                self.after_rx(rsock)
